@@ -390,6 +390,7 @@ func main() {
 	genMisc(o, pkgs, all)
 	genLockSections(o, pkgs["."], *repo)
 	genSharedWrites(o, all)
+	genFinisherWrites(o, pkgs["."])
 
 	if *factsPath != "" {
 		b, _ := json.MarshalIndent(o.facts, "", " ")
